@@ -69,6 +69,13 @@ def _digest_any(o):
         return ('aper', _aper_digest(o))
     if hasattr(o, 'param_names'):
         return ('model', _model_digest(o))
+    if name == 'EPSFStars':
+        return ('epsfstars', o.n_all_stars, o.n_good_stars,
+                [(buffer_digest(np.asarray(s.data)),
+                  buffer_digest(np.asarray(s.weights)),
+                  repr([float(v) for v in s.cutout_center]),
+                  repr(float(s.flux)), repr([int(v) for v in s.origin]),
+                  bool(s._excluded_from_fit)) for s in o.all_stars])
     if name == 'IsophoteList':
         return ('isolist', repr([(float(i.sma), float(i.intens),
                                   float(i.eps)) for i in o]))
@@ -239,6 +246,15 @@ class InputsMachine(Machine):
             arr[10:14, 10:15] = 1
             seg = SegmentationImage(arr)
         P['segm'] = SegmentationImage(seg.data.copy())
+        # an L-shaped label whose bounding box contains another label; the
+        # caller keeps the array the image was built from
+        nest = np.zeros((14, 16), dtype=np.int32)
+        nest[2:12, 3:5] = 4
+        nest[10:12, 3:13] = 4
+        nest[4:7, 8:11] = 2
+        nest[0, 15] = 7
+        P['segm_nest_arr'] = nest
+        P['segm_nest'] = SegmentationImage(nest)
         # grid of ePSFs handed to GriddedPSFModel
         psfs = np.array([psfimg / psfimg.sum() * (1 + 0.1 * k)
                          for k in range(4)])
@@ -452,6 +468,11 @@ class InputsMachine(Machine):
             ms[0].cutout(data)
             ms[0].multiply(data)
             ms[0].get_values(data, mask=mask)
+            if op.get('opt', 0) % 2:
+                # drawn on a cutout of the image: origin = cutout corner
+                from matplotlib.figure import Figure
+                ax = Figure().subplots()
+                aper.plot(ax=ax, origin=(2.0 + op['variant'], 3.5))
             return ms[0].to_image(data.shape)
         return self._run(st, op, fn)
 
@@ -807,6 +828,14 @@ class InputsMachine(Machine):
                                     relabel=bool(v % 3))
             s0 = seg.segments[0]
             out.append(s0.make_cutout(data, masked_array=bool(v % 2)))
+            # per-segment reads, also on an image in which one label's
+            # bounding box contains pixels of another label
+            for sg in (seg, P['segm_nest']):
+                for s1 in sg.segments:
+                    out.append((s1.data, s1.data_ma, s1.bbox, s1.area,
+                                s1.slices))
+                out.append((sg.data_ma, sg.get_index(sg.labels[-1]),
+                            sg.background_area))
             out.append(seg[2:20, 3:25].nlabels)
             return out
         return self._run(st, op, fn)
@@ -913,7 +942,33 @@ class InputsMachine(Machine):
         tbl['x'] = P['xpos']
         tbl['y'] = P['ypos']
 
+        if 'epsf_stars' not in P:
+            # stars the caller assembled itself; the centre of one lies so
+            # close to the edge of its cutout that its fitting box sticks
+            # out (the fitter reports it as failed)
+            from photutils.psf import EPSFStar, EPSFStars
+            lst = []
+            for k, (x, y) in enumerate(zip(P['xpos'], P['ypos'])):
+                xi, yi = int(round(x)), int(round(y))
+                if not (4 <= xi < P['clean'].shape[1] - 4
+                        and 4 <= yi < P['clean'].shape[0] - 4):
+                    continue
+                off = 3 if not lst else 0
+                cut = P['clean'][yi - 4:yi + 5, xi - 4 + off:xi + 5 + off]
+                if cut.shape != (9, 9):
+                    continue
+                lst.append(EPSFStar(cut.copy(), cutout_center=(
+                    x - (xi - 4 + off), y - (yi - 4)),
+                    origin=(xi - 4 + off, yi - 4)))
+            P['epsf_stars'] = EPSFStars(lst) if len(lst) >= 2 else None
+            st.d0['epsf_stars'] = _digest_any(P['epsf_stars'])
+
         def fn():
+            if op.get('opt', 0) >= 5 and P['epsf_stars'] is not None:
+                epsf, fitted = EPSFBuilder(
+                    oversampling=1, maxiters=5, progress_bar=False,
+                    center_accuracy=1e-6)(P['epsf_stars'])
+                return epsf.data
             stars = extract_stars(P['nddata_w'] if op['variant'] % 2
                                   else NDData(P['clean']), tbl, size=9)
             epsf, fitted = EPSFBuilder(oversampling=1, maxiters=1,
